@@ -60,15 +60,15 @@ Proof.
     + apply (Hnew k ck H1 H2).
 Qed.
 
-(* the builder: parents only change to NULL, the domain is unchanged *)
-Lemma hinv_cells_by : forall D h h' F,
+(* the builder: the domain is unchanged *)
+Lemma hinv_cells_by_gen : forall D h h' F,
   hinv D h -> cells_by h h' F ->
-  (* flags and counts *)
+  (* flags, counts, parents *)
   (forall a c, findw h a = Some c ->
      w_isroot (F a c) = w_isroot c /\
      (w_closed (F a c) = true -> w_parent (F a c) = None) /\
      (~ In a D -> 1 <= w_ref (F a c)) /\
-     (w_parent (F a c) = w_parent c \/ w_parent (F a c) = None)) ->
+     (forall p, w_parent (F a c) = Some p -> findw h p <> None /\ (p < a)%positive /\ a <> root)) ->
   (* children *)
   (forall a c, findw h a = Some c ->
      exists l, chain h' (w_first (F a c)) l /\
@@ -92,12 +92,10 @@ Proof.
     + exists (F k ck). split; auto. eapply cells_by_some; eauto.
     + destruct (cells_by_inv h h' F k ck CB H1) as [ck0 [H1' E]]. subst ck. eauto.
   - intros k ck' p Hf' Hp. destruct (cells_by_inv h h' F k ck' CB Hf') as [ck [Hf E]]. subst ck'.
-    destruct (Hflags k ck Hf) as [_ [_ [_ [Hpar|Hpar]]]]; [|congruence].
-    rewrite Hpar in Hp. intro Hn. apply (cells_by_none h h' F p CB) in Hn.
-    exact (hi_parent D h HI k ck p Hf Hp Hn).
+    destruct (Hflags k ck Hf) as [_ [_ [_ Hpar]]]. destruct (Hpar p Hp) as [Hl _].
+    intro Hn. apply (cells_by_none h h' F p CB) in Hn. contradiction.
   - intros k ck' p Hf' Hp. destruct (cells_by_inv h h' F k ck' CB Hf') as [ck [Hf E]]. subst ck'.
-    destruct (Hflags k ck Hf) as [_ [_ [_ [Hpar|Hpar]]]]; [|congruence].
-    rewrite Hpar in Hp. exact (hi_parent_lt D h HI k ck p Hf Hp).
+    destruct (Hflags k ck Hf) as [_ [_ [_ Hpar]]]. destruct (Hpar p Hp) as [_ [Hlt _]]. exact Hlt.
   - intros a c' Hf' Hp. destruct (cells_by_inv h h' F a c' CB Hf') as [c [Hf E]]. subst c'. eauto.
   - intros a c' f Hf' Hd Hfo. destruct (cells_by_inv h h' F a c' CB Hf') as [c [Hf E]]. subst c'.
     destruct (Hfocus a c f Hf Hd Hfo) as [cf [H1 H2]]. exists (F f cf). split; auto. eapply cells_by_some; eauto.
@@ -108,8 +106,8 @@ Proof.
   - intros a c' Hf'. destruct (cells_by_inv h h' F a c' CB Hf') as [c [Hf E]]. subst c'.
     destruct (Hflags a c Hf) as [Hr _]. rewrite Hr. exact (hi_isroot D h HI a c Hf).
   - intros c' Hf'. destruct (cells_by_inv h h' F root c' CB Hf') as [c [Hf E]]. subst c'.
-    destruct (Hflags root c Hf) as [_ [_ [_ [Hpar|Hpar]]]]; auto.
-    rewrite Hpar. exact (hi_root_parent D h HI c Hf).
+    destruct (Hflags root c Hf) as [_ [_ [_ Hpar]]].
+    destruct (w_parent (F root c)) as [p|] eqn:Hp; auto. destruct (Hpar p eq_refl) as [_ [_ Hne]]. congruence.
   - destruct (hi_queue D h HI) as [ql [Hq1 [Hq2 Hq3]]]. exists ql. rewrite (cb_queue h h' F CB).
     split; [eapply cells_by_qchain; eauto|]. split.
     + intro q. rewrite (cb_reqs h h' F CB). apply Hq2.
@@ -119,7 +117,36 @@ Proof.
   - rewrite (cb_drag h h' F CB). exact (hi_drag D h HI).
   - intros a Ha. rewrite (cb_nextw h h' F CB). apply (hi_nextw D h HI).
     intro Hn. apply Ha. apply (cells_by_none h h' F a CB). exact Hn.
+  - rewrite (cb_nextw h h' F CB). exact (hi_nextw_root D h HI).
   - intros q Hq'. rewrite (cb_nextq h h' F CB). apply (hi_nextq D h HI). rewrite <- (cb_reqs h h' F CB). exact Hq'.
+Qed.
+
+(* the common case: parents only change to NULL *)
+Lemma hinv_cells_by : forall D h h' F,
+  hinv D h -> cells_by h h' F ->
+  (forall a c, findw h a = Some c ->
+     w_isroot (F a c) = w_isroot c /\
+     (w_closed (F a c) = true -> w_parent (F a c) = None) /\
+     (~ In a D -> 1 <= w_ref (F a c)) /\
+     (w_parent (F a c) = w_parent c \/ w_parent (F a c) = None)) ->
+  (forall a c, findw h a = Some c ->
+     exists l, chain h' (w_first (F a c)) l /\
+               forall k, In k l <-> (exists ck, findw h k = Some ck /\ w_parent (F k ck) = Some a)) ->
+  (forall a c, findw h a = Some c -> w_parent (F a c) = None -> w_next (F a c) = None) ->
+  (forall a c f, findw h a = Some c -> ~ In a D -> w_focus (F a c) = Some f ->
+     exists cf, findw h f = Some cf /\ w_parent (F f cf) = Some a) ->
+  (forall q cq, findq h q = Some cq ->
+     exists x p cx, q_win cq = Some x /\ q_parent cq = Some p /\ findw h x = Some cx /\
+                    w_parent (F x cx) = Some p /\ anc h' x root) ->
+  hinv D h'.
+Proof.
+  intros D h h' F HI CB Hflags Hkids Horph Hfocus Hqueue.
+  apply (hinv_cells_by_gen D h h' F HI CB); auto.
+  intros a c Hf. destruct (Hflags a c Hf) as [H1 [H2 [H3 H4]]]. repeat split; auto.
+  - destruct H4 as [E|E]; [|congruence]. rewrite E in H. exact (hi_parent D h HI a c p Hf H).
+  - destruct H4 as [E|E]; [|congruence]. rewrite E in H. exact (hi_parent_lt D h HI a c p Hf H).
+  - intro Ea. subst a. destruct H4 as [E|E]; [|congruence]. rewrite E in H.
+    rewrite (hi_root_parent D h HI c Hf) in H. discriminate.
 Qed.
 
 (* ancestors survive when the parent pointers on the path survive *)
